@@ -131,6 +131,8 @@ class MarkerUnion(BaseMarker):
                 common_markers = [
                     marker for marker in self.markers if marker in shared_markers
                 ]
+                if unique_intersection.is_empty():
+                    return MarkerUnion.of(*common_markers)
                 return unique_intersection | MarkerUnion(*common_markers)
 
         return None
